@@ -59,11 +59,11 @@ fn main() {
             let mode = args.rest.get(0).map(|s| s.as_str()).unwrap_or("all").to_string();
             let n = |q: usize, t: usize| if thorough { t } else { q };
             match mode.as_str() {
-                "pairs" => cmp::drive_cmp(&args, n(2500, 60000)),
+                "pairs" => cmp::drive_cmp(&args, n(2500, 200000)),
                 "ed" => cmp::drive_ed(&args, thorough, n(3000, 200000)),
-                "sub" => cmp::drive_sub(&args, thorough, n(3000, 400000)),
+                "sub" => cmp::drive_sub(&args, thorough, n(3000, 1600000)),
                 "ss" => cmp::drive_ss(&args, thorough, n(2000, 100000)),
-                "reuse" => cmp::drive_reuse(&args, n(150, 10000), n(2000, 200000)),
+                "reuse" => cmp::drive_reuse(&args, n(150, 40000), n(2000, 600000)),
                 "tables" => cmp::drive_tables(&args),
                 x => {
                     eprintln!("unknown cmp mode {}", x);
